@@ -19,20 +19,59 @@ def sorted_strict(l):
     return all(a < b for a, b in zip(l, l[1:]))
 
 
-def simulate(S, evs, extra_occupied=()):
+COQ_CASES = []          # (traps, occupancy, paths) as Coq text, expected show_sim text, label
+
+
+def q(v):
+    return cQ(v)
+
+
+def paths_coq(evs):
+    out = []
+    for e in evs:
+        if e[0] != "play":
+            continue
+        pv = e[1]
+        for p in (list(pv.members) if type(pv).__name__ == "Group" else [pv]):
+            acts = []
+            for a in tc.abstract_path(p.path):
+                if a[0] == "W":
+                    acts.append("SWay " + clist([f"({clist([q(x) for x in g.x_positions])}, {clist([q(y) for y in g.y_positions])})" for g in a[1]]))
+                else:
+                    acts.append(f"SSwitch {'On' if a[1] == 'on' else 'Off'} {tc.sel_coq(a[4])} {tc.sel_coq(a[5])}")
+            out.append(f"(mkspath {cnat(len(p.x_tones))} {cnat(len(p.y_tones))} {clist(acts)})")
+    return clist(out)
+
+
+def sim_text(res, sim):
+    if res[0] == "reject":
+        return "reject:" + res[1]
+    fq = lambda v: f"{Fraction(v).numerator}/{Fraction(v).denominator}"
+    occ = sorted(((a, p) for p, a in sim.occ.items()), key=lambda t: t[0])
+    return f"ok held={len(sim.held)} occ=[" + ",".join(f"{a}@{fq(p[0])},{fq(p[1])}" for a, p in occ) + "]"
+
+
+def simulate(S, evs, extra_occupied=(), label=""):
     """choose the compatible occupancy (sites where spots light up are occupied), run the simulator"""
     sites = aodsim.layout_sites(S)
     picks = list(dict.fromkeys(aodsim.dry_run_sites(S, evs)))
-    occ = {p: f"a{i}" for i, p in enumerate(picks)}
+    occ = {p: i + 1 for i, p in enumerate(picks)}
     for k, p in enumerate(extra_occupied):
         if p in sites and p not in occ:
-            occ[p] = f"b{k}"
+            occ[p] = 1000 + k
     before = dict(occ)
     sim = aodsim.Sim(sites, occ)
+    res = ("ok",)
     try:
         aodsim.run_events_on(sim, evs)
     except aodsim.Reject as r:
-        return ("reject", r.kind, str(r)), before, sim
+        res = ("reject", r.kind, str(r))
+    if len(sites) <= 60 or len(COQ_CASES) % 7 == 0:
+        st0 = (f"(mkast {clist([f'({q(x)}, {q(y)})' for x, y in sorted(sites)])} "
+               f"{clist([f'(({q(p[0])}, {q(p[1])}), {cnat(a)})' for p, a in before.items()])} [] [] [])")
+        COQ_CASES.append((f"({st0}, {paths_coq(evs)})", sim_text(res, sim), label))
+    if res[0] == "reject":
+        return res, before, sim
     if sorted(list(sim.occ.values()) + list(sim.held.values())) != sorted(before.values()):
         return ("reject", "EAtoms", "atoms lost or duplicated"), before, sim
     return ("ok",), before, sim
@@ -50,7 +89,7 @@ def judge(ctx, move, label, S, method, args, valid, expected_end, sig_extra=None
         if valid:
             ctx.fail(dict(sig, kind="valid-input-rejected", error=extra.split(":")[0]), rep, f"{move} {label}: documented preconditions hold but the call is rejected: {extra[:140]}")
         return None
-    res, before, sim = simulate(S, evs, extra_occupied)
+    res, before, sim = simulate(S, evs, extra_occupied, label=f"{move} {label}")
     if res[0] == "reject":
         ctx.hist(move, "NOT EXECUTABLE " + res[1])
         ctx.fail(dict(sig, kind="not-executable", why=res[1], valid=valid), rep, f"{move} {label}: accepted but not physically executable: {res[2]}")
@@ -217,7 +256,25 @@ def run(ctx):
     rearrange_cases(ctx)
     waypoint_cases(ctx)
     gemini_cases(ctx)
-    ctx.explanation = "see DESIGN.md section 5 (C08)"
+    # ---- the Gallina simulator on the same paths ----
+    cases = COQ_CASES if len(COQ_CASES) <= ctx.pick(400, 3000) else ctx.rng.sample(COQ_CASES, ctx.pick(400, 3000))
+    chunks = [cases[i:i + 25] for i in range(0, len(cases), 25)]
+    bodies = [(f"sim_{k}", "From BS Require Import Core.Show Core.Base Model.Aod.\n"
+               "Eval vm_compute in (lines (map (fun c => show_sim (sim_paths (fst c) (snd c))) " + clist([c[0] for c in ch]) + ")).") for k, ch in enumerate(chunks)]
+    mism = []
+    for ch, (ok, vals, log) in zip(chunks, coqrun.eval_many(ctx.bdir, bodies)):
+        if not ok or len(vals) != 1 or len(vals[0]) != len(ch):
+            ctx.obligation("coqc simulator file evaluates", False, log[-800:])
+            continue
+        for c, line in zip(ch, vals[0]):
+            if line != c[1]:
+                mism.append({"model": line[:200], "python_simulator": c[1][:200], "call": c[2]})
+    ctx.correspondence("Model.Aod.sim_paths (Coq) = the Python simulator, on the paths the library actually played", len(cases), mism)
+    ctx.sample({"call": COQ_CASES[0][2], "simulator": COQ_CASES[0][1][:200]} if COQ_CASES else "none")
+    ctx.explanation = ("Theorems about the simulator that defines 'physically executable': every accepted sequence of paths conserves the atoms; "
+                       "accepted releases are onto vacant trap sites, spots light up on trap sites, jumps while holding and dimension mismatches are "
+                       "refused. Whether each library move yields accepted paths and ends where documented is decided by running the library on its "
+                       "layouts over the stated bounds (exhaustive in the thorough tier) and simulating the played paths in Python and in Coq.")
 
 
 def replay(data):
